@@ -4,8 +4,11 @@ import (
 	"fmt"
 	"math/rand"
 	"strings"
+	"time"
 
 	"github.com/cube2222/octosql/octosql"
+
+	"github.com/cube2222/octosql/plugins/verifharness/nodeh"
 )
 
 // Shapes "typesum-*": expressions whose static type is computed by octosql.TypeSum from
@@ -169,4 +172,84 @@ func buildTypesumQuery(rng *rand.Rand, shape string) string {
 		sql = "SELECT DISTINCT " + strings.Join(parts, ", ") + " FROM m.t3 h"
 	}
 	return sql
+}
+
+// ---------------------------------------------------------------------------------------------
+// Retracting join inputs: a valid changelog (insert, then retract some of the present rows, then
+// possibly insert again), zero event times so nothing is buffered, NoRetractions = false. Outer
+// joins must then emit compensating rows (NULL padding appears and disappears as the last match
+// for a key goes away); every such record must still match the plan schema.
+
+func genRetractingTable(rng *rand.Rand, cols []colDef, maxRows int) *nodeh.Table {
+	base := genTable(rng, cols, maxRows)
+	if len(base.Events) < 2 && maxRows >= 2 {
+		base = genTable(rng, cols, maxRows)
+	}
+	rows := base.Events
+	var evs []nodeh.Event
+	present := make([]bool, len(rows))
+	retr := func(i int) {
+		evs = append(evs, nodeh.Rec(rows[i].Record.Values, true, time.Time{}))
+		present[i] = false
+	}
+	ins := func(i int) {
+		evs = append(evs, nodeh.Rec(rows[i].Record.Values, false, time.Time{}))
+		present[i] = true
+	}
+	for i := range rows {
+		ins(i)
+		// sometimes retract an earlier row right away (interleaved), more retractions at the end
+		if rng.Intn(3) == 0 {
+			k := rng.Intn(i + 1)
+			if present[k] {
+				retr(k)
+			}
+		}
+	}
+	for i := range rows {
+		if present[i] && rng.Intn(2) == 0 {
+			retr(i)
+		}
+	}
+	for i := range rows {
+		if !present[i] && rng.Intn(4) == 0 {
+			ins(i)
+		}
+	}
+	return &nodeh.Table{Fields: base.Fields, TimeField: -1, NoRetractions: false, Events: evs}
+}
+
+func buildRetractJoinQuery(rng *rand.Rand, shape string) string {
+	pick := func(xs ...string) string { return xs[rng.Intn(len(xs))] }
+	kw := map[string]string{"join-retract-left": "LEFT JOIN", "join-retract-right": "RIGHT JOIN", "join-retract-outer": "OUTER JOIN"}[shape]
+	if shape == "join-retract-groupby" {
+		// a retracting GROUP BY (TRIGGER COUNTING 1 re-emits every group on every record) as one or both inputs
+		kw = pick("LEFT JOIN", "RIGHT JOIN", "OUTER JOIN")
+		l := "(SELECT a.i AS gk, count(*) AS cnt, max(a.id) AS mx FROM m.t1 a GROUP BY a.i TRIGGER COUNTING 1) z"
+		r := "m.t2 b"
+		on := "z.gk = b.id"
+		sel := pick("*", "z.gk AS c0, z.cnt AS c1, b.v AS c2, b.id AS c3", "(z.cnt + 1) AS c0, upper(b.v) AS c1, z.mx AS c2")
+		if rng.Intn(3) == 0 {
+			r = "(SELECT b.id AS gk2, count(*) AS cnt2, array_agg(b.v) AS vs FROM m.t2 b GROUP BY b.id TRIGGER COUNTING 1) y"
+			on = "z.gk = y.gk2"
+			sel = pick("*", "z.gk AS c0, y.gk2 AS c1, (z.cnt + y.cnt2) AS c2, y.vs AS c3")
+		}
+		return "SELECT " + sel + " FROM " + l + " " + kw + " " + r + " ON " + on
+	}
+	on := pick("a.i = b.id", "a.id = b.id", "a.i = b.id", "a.s = b.v")
+	var sel string
+	switch rng.Intn(4) {
+	case 0:
+		sel = "*"
+	case 1:
+		sel = "a.id AS c0, a.i AS c1, a.s AS c2, a.f AS c3, b.id AS c4, b.v AS c5, b.w AS c6"
+	case 2:
+		sel = "a.*, b.v AS bv"
+	default:
+		g := &qgen{rng: rng, safe: true, cols: map[string][]string{}}
+		g.addCols("a", t1Cols)
+		g.addCols("b", t2Cols)
+		sel = renderSelect(g.selectList(2+rng.Intn(3), 1), "c") + ", a.id AS ka, b.id AS kb"
+	}
+	return "SELECT " + sel + " FROM m.t1 a " + kw + " m.t2 b ON " + on
 }
